@@ -21,6 +21,10 @@ let run_case (fuel : nat) (c : Sexp.t) : (string * Sexp.t * Sexp.t option) optio
   let model_only m = Some ("", m, None) in
   match c with
   | L [A "parse-term"; A s] -> model_only (sexp_of_pres sexp_of_term (parse_term fuel (str_of_atom s)))
+  | L [A "unify-text"; A s] ->
+    model_only (match parse_term fuel (str_of_atom s) with
+        | Ok (POk t) -> sexp_of_res (sexp_of_opt sexp_of_ss) (unify fuel t (TVar (n_of_int 1, [n_of_int 36; n_of_int 82])) [])
+        | Ok PErr -> A "err" | Panic -> A "panic" | OutOfFuel -> A "fuel")
   | L [A "parse-args"; A s] ->
     model_only (sexp_of_pres (fun ts -> L (List.map sexp_of_term ts)) (parse_arguments fuel (str_of_atom s)))
   | L [A "parse-list"; A s] -> model_only (sexp_of_pres sexp_of_term (parse_linked_list fuel (str_of_atom s)))
